@@ -67,7 +67,7 @@ JOBS = {
     "C13": [
         {"module": "MC_OneItem", "spec": "Spec", "invariants": ["InvAccepted", "InvPrefix", "InvSuffix", "InvPrefixFree", "InvProtInner", "InvProtToVec", "Emit"],
          "quick": {"timeout": 900}, "thorough": {"timeout": 1200},
-         "rule": "accepted items of every type x 4 encodings: every cut point, 7 suffixes, byte-vs-Value API agreement in both directions; the "
+         "rule": "accepted items of every type x 4 encodings: every cut point, 7 suffixes, byte-vs-Value API agreement in both directions (untagged entry, and tagged entry with every tag-head width); the "
                  "header map inside a protected bstr likewise; plus every accepted wire of the decode instances (derived); distinct_nontrivial = "
                  "distinct accepted (type, wire) pairs"},
     ],
